@@ -242,6 +242,15 @@ public:
             o["call"] = 1;
             if (auto *fd = e->getDirectCallee()) {
                 o["cn"] = nameOf(fd); o["cq"] = qnameOf(fd);
+                {
+                    json::Array nta; bool any = false;
+                    const DeclContext *dc = fd->getDeclContext();
+                    if (auto *sp = dyn_cast_or_null<ClassTemplateSpecializationDecl>(dc))
+                        for (auto &ta : sp->getTemplateArgs().asArray()) if (ta.getKind() == TemplateArgument::Integral) { nta.push_back(ta.getAsIntegral().getExtValue()); any = true; }
+                    if (auto *targs = fd->getTemplateSpecializationArgs())
+                        for (auto &ta : targs->asArray()) if (ta.getKind() == TemplateArgument::Integral) { nta.push_back(ta.getAsIntegral().getExtValue()); any = true; }
+                    if (any) o["cnta"] = std::move(nta);
+                }
                 unsigned fl = 0; std::string ff;
                 if (inRoots(fd->getLocation(), &ff, &fl)) { o["cl"] = (int64_t)fl; }
             } else {
@@ -438,7 +447,7 @@ public:
             dc = dc->getParent();
         }
         for (auto it = parts.rbegin(); it != parts.rend(); ++it) { os << *it << " | "; }
-        return trunc(os.str(), 600);
+        return trunc(os.str(), 1500);
     }
 
     void emitFunction(const FunctionDecl *fd) {
@@ -472,6 +481,14 @@ public:
             if (md->isConst()) o["const"] = 1;
         }
         o["ret"] = typeStr(fd->getReturnType());
+        if (auto *targs = fd->getTemplateSpecializationArgs()) {
+            json::Array nta;
+            for (auto &ta : targs->asArray()) {
+                if (ta.getKind() == TemplateArgument::Integral) nta.push_back(ta.getAsIntegral().getExtValue());
+                else nta.push_back(nullptr);
+            }
+            o["nta"] = std::move(nta);
+        }
         json::Array params;
         for (auto *p : fd->parameters()) {
             json::Object jp; jp["n"] = nameOf(p); jp["t"] = typeStr(p->getType()); jp["tn"] = shortType(p->getType());
@@ -503,10 +520,20 @@ public:
             std::string targs = templateArgsOf(fd);
             size_t h = std::hash<std::string>()(bodyStr + cfgStr);
             auto it = seen.find(h);
-            if (it != seen.end()) { it->second++; return; }
+            if (it != seen.end()) {
+                it->second++;
+                json::Object d;
+                d["n"] = nameOf(fd); d["file"] = file; d["line"] = (int64_t)line; d["targs"] = targs;
+                if (auto *v = o.get("nta")) d["nta"] = *v;
+                if (auto *v = o.get("cls")) d["cls"] = *v;
+                d["same_as"] = std::to_string(h);
+                OS << "{\"q\":" << json::Value(qn) << ",\"kind\":\"dup\",\"hdr\":" << json::Value(std::move(d)) << "}\n";
+                return;
+            }
             if (seen.size() >= MaxInst) { Dropped[key]++; return; }
             seen[h] = 1;
             o["targs"] = targs;
+            o["h"] = std::to_string(h);
         }
         OS << "{\"q\":" << json::Value(qn) << ",\"kind\":\"" << kind << "\",\"hdr\":";
         OS << json::Value(std::move(o));
